@@ -8,6 +8,11 @@ use std::io::Write;
 
 fn main() {
     let a: Vec<String> = std::env::args().collect();
+    if a.len() == 2 && a[1] == "help" {
+        // also used by the driver as a build-only invocation under `cargo miri run`
+        println!("worker <prop> --tier T --seed S --shard i/N --out FILE | replay ... | canary ... | dump-corpus DIR");
+        return;
+    }
     if a.len() >= 3 && a[1] == "replay" {
         std::process::exit(replay(&a[2..]));
     }
